@@ -144,6 +144,10 @@ pub mod util;
 
 mod value;
 mod value_type;
+
+#[cfg(feature = "verif_hooks")]
+#[doc(hidden)]
+pub mod verif;
 mod version;
 mod vlog;
 
